@@ -53,6 +53,36 @@ CLAIMED = {
              "built here (python backend only).",
         technique="Lean 4 proof (case analysis, grind) + exhaustive differential correspondence over the request table",
         design="§3 C20"),
+    "C03": dict(
+        text="Lean 4 theorems (any field): back substitution inverts the triangular product and vice versa for every size "
+             "and every row — the daun forward/inverse pair (degrees 0-2) — with the degree-0 diagonal positivity and "
+             "triangularity proved over the reals; matrix-pair round trip for basex/rbasex/daun-3. Tied to the code by "
+             "entrywise comparison of the Lean matrices/solves with the implementation's arrays and by structure checks on "
+             "its bases; round trips on random rows (exact class) and smooth profiles (approximate class) as oracle.",
+        note="Trusted: Lean kernel + standard axioms; correspondence sizes 2..40 (quick) / ..150 (thorough); diagonal "
+             "non-vanishing for daun degree 1-2 and rbasex, and G·F = 1 for basex / daun degree 3, are measured; approximate-class "
+             "limits are 2x the pinned tree's error.",
+        technique="Lean 4 proof (induction over back substitution) + operator-level differential correspondence",
+        design="§3 C03"),
+    "C04": dict(
+        text="Lean 4 theorems: x·M, M·x and the triangular solve are linear in the data for every size; dr scaling of the "
+             "matrix forms; NNLS solutions are positively homogeneous (over the reals). Tie: for every method x direction x "
+             "option set the implementation is compared with its own extracted fixed operator (T(X) = X@M), and the Lean "
+             "matrices with the implementation's arrays; linearity, bit-exact row independence, dr scaling, integer dtypes, "
+             "NNLS homogeneity, image tools and abel.Transform settings as oracle.",
+        note="Trusted: Lean kernel + standard axioms; Hansen-Law / direct / Bordas recursions and scipy resampling tools are "
+             "not modelled in Lean (fixed-operator form and linearity measured); scipy nnls external.",
+        technique="Lean 4 proof (finite-sum algebra, induction) + fixed-operator differential check",
+        design="§3 C04"),
+    "C17": dict(
+        text="Lean 4 theorems: daun degree-0 matrix = onion-peeling W entrywise (all i, j); triangular solve = multiplication "
+             "by any inverse; Aᵀ(AAᵀ+0·L)⁻¹ = A⁻¹; a feasible unconstrained solution is the unique NNLS solution; and the "
+             "argument routing of all wrapper-shaped functions, decided by the kernel over a table regenerated from /repo by "
+             "an AST translator on every run. Oracle: the equivalences on random data and 23 wrapper pairs at runtime.",
+        note="Trusted: Lean kernel + standard axioms; gen_wrappers.py; the allowed renamings center→method, axis→axes; "
+             "alternatives-within-envelopes and SVD clauses measured; direct's C backend not built.",
+        technique="Lean 4 proof (real analysis of sqrt identities, Mathlib matrices, decide +kernel over generated table) + translator",
+        design="§3 C17"),
 }
 
 NOT_YET = "check not built yet in this session (planned, see DESIGN.md §3); not claimed until its theorems and correspondence run"
